@@ -47,7 +47,11 @@ def parse_xml(out):
     res = []
     for line in out.split('\n'):
         if line.startswith('<error '):
-            res.append(dict(ET.fromstring(line).attrib))
+            try:
+                res.append(dict(ET.fromstring(line).attrib))
+            except ET.ParseError:
+                # e.g. a control character from the proofreader's message: read the location attributes only
+                res.append(dict(re.findall(r'(fromy|fromx|toy|tox)="([^"]*)"', line)))
     return res
 
 
